@@ -40,6 +40,135 @@ Theorem C12_no_document : forall o indent p doc r j l a,
 Proof. intros o indent p doc r j l a L A. unfold apply_tree. now rewrite L, A. Qed.
 Print Assumptions C12_no_document.
 
+(* ---- the size counted is the length of the value's spelling in the output (SizeFacts.v) ---- *)
+From JP Require Import Strings Scan PrintParse Totality CauseFacts SizeFacts.
+
+(* escaping an escaped tree again changes nothing: the raw node a copy stores is printed, with the
+   same escape setting, exactly as its source value *)
+Theorem C12_copy_spelled_as_source : forall o v,
+  print (o_esc o) (render (o_esc o) (fst (deep_copy o v))) = print (o_esc o) (render (o_esc o) v).
+Proof. exact deep_copy_spelling. Qed.
+Print Assumptions C12_copy_spelled_as_source.
+
+(* the size counted for a value that is not a null is the length of the spelling of the stored copy *)
+Theorem C12_counted_size_is_spelling_length : forall o v,
+  is_null v = false ->
+  snd (deep_copy o v) = zlen (print (o_esc o) (render (o_esc o) (fst (deep_copy o v)))).
+Proof. exact deep_copy_counts_spelling. Qed.
+Print Assumptions C12_counted_size_is_spelling_length.
+
+(* a copied null: as the code counts (o_nullsz = None) 0 for a nil node and 4 for a stored raw null;
+   with a fixed setting z every null counts z; in the accepted settings it counts 0 or 4 and is
+   spelled null *)
+Theorem C12_null_as_code : forall o v,
+  o_nullsz o = None -> is_null v = true ->
+  snd (deep_copy o v) = match v with NNil => 0%Z | _ => 4%Z end.
+Proof. exact deep_copy_null_code. Qed.
+Print Assumptions C12_null_as_code.
+
+Theorem C12_null_fixed : forall o v z,
+  o_nullsz o = Some z -> is_null v = true -> snd (deep_copy o v) = z.
+Proof. exact deep_copy_null_fixed. Qed.
+Print Assumptions C12_null_fixed.
+
+Theorem C12_null_0_or_4 : forall o v,
+  (o_nullsz o = None \/ o_nullsz o = Some 0%Z \/ o_nullsz o = Some 4%Z) -> is_null v = true ->
+  (snd (deep_copy o v) = 0%Z \/ snd (deep_copy o v) = 4%Z) /\
+  print (o_esc o) (render (o_esc o) (fst (deep_copy o v))) = B "null" /\ is_null (fst (deep_copy o v)) = true.
+Proof. exact deep_copy_null_0_or_4. Qed.
+Print Assumptions C12_null_0_or_4.
+
+(* the compact text of a tree contains the compact text of every node in it as a contiguous
+   substring (infix s t: t = pre ++ s ++ post): the spelling of a copy in the output is well defined *)
+Theorem C12_descendant_is_substring : forall esc cp root,
+  subnode cp root -> infix (print esc (render esc cp)) (print esc (render esc root)).
+Proof. exact subnode_output. Qed.
+Print Assumptions C12_descendant_is_substring.
+
+(* one successful copy (stinv: the invariant of every reachable state, Totality.v; inner_nonempty: no
+   reference token of the destination before the last is empty): the node stored is in the new tree,
+   spelled as the source, a contiguous part of the compact text of the new tree, and what was added
+   to the total is the length of that spelling *)
+Theorem C12_copy_step_spelling : forall o st op st' path,
+  stinv st -> op_str op (B "path") = Ok path -> inner_nonempty path ->
+  op_copy o st op = Ok st' ->
+  exists v cp sz,
+    deep_copy o v = (cp, sz) /\ s_acc st' = (s_acc st + sz)%Z /\
+    print (o_esc o) (render (o_esc o) cp) = print (o_esc o) (render (o_esc o) v) /\
+    subnode cp (root_node (s_root st')) /\
+    infix (print (o_esc o) (render (o_esc o) cp)) (print (o_esc o) (render (o_esc o) (root_node (s_root st')))) /\
+    (is_null v = false -> sz = zlen (print (o_esc o) (render (o_esc o) cp))).
+Proof. exact copy_step_spelling. Qed.
+Print Assumptions C12_copy_step_spelling.
+
+(* the copy at position length p1 of a patch that runs to the end *)
+Theorem C12_copy_in_patch_output : forall o p1 op p2 st0 stf path,
+  stinv st0 -> forallb op_ok p1 = true -> op_kind op = KCopy ->
+  op_str op (B "path") = Ok path -> inner_nonempty path ->
+  apply_from o 0 st0 (p1 ++ op :: p2) = AOk stf ->
+  exists st1 st2 v cp sz,
+    apply_from o 0 st0 p1 = AOk st1 /\ step o st1 op = Ok st2 /\
+    apply_from o (S (length p1)) st2 p2 = AOk stf /\
+    deep_copy o v = (cp, sz) /\ s_acc st2 = (s_acc st1 + sz)%Z /\
+    print (o_esc o) (render (o_esc o) cp) = print (o_esc o) (render (o_esc o) v) /\
+    (is_null v = false -> sz = zlen (print (o_esc o) (render (o_esc o) cp))) /\
+    subnode cp (root_node (s_root st2)) /\
+    (forall t, subnode cp (root_node (s_root stf)) -> marshal_root o (s_root stf) = Ok t ->
+               infix (print (o_esc o) (render (o_esc o) cp)) (output o [] t)).
+Proof. exact copy_in_patch_output. Qed.
+Print Assumptions C12_copy_in_patch_output.
+
+(* the copy is the last operation: the bytes returned contain its spelling *)
+Theorem C12_copy_last_output : forall o st op st' path t,
+  stinv st -> op_kind op = KCopy -> op_str op (B "path") = Ok path -> inner_nonempty path ->
+  step o st op = Ok st' -> marshal_root o (s_root st') = Ok t ->
+  exists v cp sz,
+    deep_copy o v = (cp, sz) /\ s_acc st' = (s_acc st + sz)%Z /\
+    infix (print (o_esc o) (render (o_esc o) cp)) (output o [] t) /\
+    print (o_esc o) (render (o_esc o) cp) = print (o_esc o) (render (o_esc o) v) /\
+    (is_null v = false -> sz = zlen (print (o_esc o) (render (o_esc o) cp))).
+Proof. exact copy_last_output. Qed.
+Print Assumptions C12_copy_last_output.
+
+(* indented output: the codec's Compact of it is the compact text *)
+Theorem C12_compact_of_indented : forall esc ind t,
+  wsb ind = true -> twf t -> compact_go esc (pp esc ind 0 t) = Some (print esc t).
+Proof. exact compact_of_indented. Qed.
+Print Assumptions C12_compact_of_indented.
+
+(* inner_nonempty cannot be dropped: a copy to //b is counted but what it adds is not kept *)
+Theorem C12_empty_token_counts_but_is_lost :
+  match api_decode (B "[{""op"":""copy"",""from"":""/a"",""path"":""//b""}]") with
+  | Some p =>
+      api_apply (mkOpts true 4 false false false [] None) [] p (B "{""a"":""<x>""}") = RErr (Some 0%nat) (ECopyLimit 4 5) /\
+      api_apply (mkOpts true 0 false false false [] None) [] p (B "{""a"":""<x>""}") = ROut (B "{""a"":""<x>""}")
+  | None => False
+  end.
+Proof. exact copy_empty_token_counts_but_is_lost. Qed.
+Print Assumptions C12_empty_token_counts_but_is_lost.
+
+(* non-vacuity of the step theorem: {"a":"<x>"}, copy /a to /b with EscapeHTML on: the hypotheses hold,
+   15 is added, and the node stored is a member of the new root whose spelling has 15 bytes *)
+Example C12_spelling_nonvacuous :
+  let o := mkOpts true 0 false false true [] None in
+  let op : operation := [(B "op", Some (TStr (B "copy"))); (B "from", Some (TStr (B "/a"))); (B "path", Some (TStr (B "/b")))] in
+  exists r st', load_doc o (TObj [(B "a", TStr (B "<x>"))]) = Ok r /\ stinv (mkState r 0) /\
+    op_str op (B "path") = Ok (B "/b") /\ inner_nonempty (B "/b") /\
+    op_copy o (mkState r 0) op = Ok st' /\ s_acc st' = 15%Z /\
+    exists cp, subnode cp (root_node (s_root st')) /\ cp <> root_node (s_root st') /\
+               zlen (print true (render true cp)) = 15%Z /\
+               print true (render true cp) = print true (TStr (B "<x>")).
+Proof.
+  cbv zeta. eexists. eexists. split; [vm_compute; reflexivity|].
+  split; [eapply load_doc_inv; vm_compute; reflexivity|].
+  split; [vm_compute; reflexivity|]. split; [vm_compute; repeat constructor; discriminate|].
+  split; [vm_compute; reflexivity|]. split; [reflexivity|].
+  eexists. split.
+  - cbn [s_root root_node node_of_con]. eapply subnode_step; [|apply subnode_refl].
+    exists (B "b"). split; [right; left; reflexivity | vm_compute; reflexivity].
+  - split; [discriminate|]. split; vm_compute; reflexivity.
+Qed.
+
 (* non-vacuity: {"a":"<x>"} copied twice; the value is spelled "<x>" (15 bytes) with
    EscapeHTML on and "<x>" (5 bytes) with it off; limits just below and at the total *)
 Example C12_nonvacuous :
